@@ -38,6 +38,10 @@ type faults struct {
 	manifest bool
 	read     map[string]int
 	write    map[string]int
+	// TRANSIENT faults: the first n attempts on the file fail (a read after delivering d bytes, a
+	// write before any byte (d<0) or after d staged bytes); later attempts succeed.
+	readT  map[string][2]int
+	writeT map[string][2]int
 	// the SQLite (metadata/arc.db) / arc.toml (config/arc.toml) step fails in this phase
 	sqlite, config bool
 	// options of the phase: backup = IncludeMetadata / IncludeConfig; restore = RestoreMetadata /
@@ -45,10 +49,12 @@ type faults struct {
 	optMeta, optCfg, optNoData bool
 }
 
-func noFaults() *faults { return &faults{read: map[string]int{}, write: map[string]int{}} }
+func noFaults() *faults {
+	return &faults{read: map[string]int{}, write: map[string]int{}, readT: map[string][2]int{}, writeT: map[string][2]int{}}
+}
 
 func (f *faults) any() bool {
-	return f.manifest || f.sqlite || f.config || len(f.read) > 0 || len(f.write) > 0
+	return f.manifest || f.sqlite || f.config || len(f.read) > 0 || len(f.write) > 0 || len(f.readT) > 0 || len(f.writeT) > 0
 }
 
 // faultBackend wraps the real LocalBackend. isBackup: keys are "<id>/data/<orig>" and
@@ -59,6 +65,8 @@ type faultBackend struct {
 	f        *faults
 	hitRead  map[string]bool
 	hitWrite map[string]bool
+	nRead    map[string]int // attempts seen so far, per original path
+	nWrite   map[string]int
 }
 
 func (b *faultBackend) key(path string) (string, bool) {
@@ -85,6 +93,21 @@ func (b *faultBackend) ReadTo(ctx context.Context, path string, w io.Writer) err
 				}
 			}
 			return errInjRead
+		}
+		if t, ok := b.f.readT[k]; ok {
+			b.nRead[k]++
+			if b.nRead[k] <= t[0] { // this attempt fails after delivering t[1] bytes
+				b.hitRead[k] = true
+				if n := t[1]; n > 0 {
+					if data, err := os.ReadFile(b.LocalBackend.GetFullPath(path)); err == nil {
+						if n > len(data) {
+							n = len(data)
+						}
+						w.Write(data[:n])
+					}
+				}
+				return errInjRead
+			}
 		}
 	}
 	return b.LocalBackend.ReadTo(ctx, path, w)
@@ -123,6 +146,16 @@ func (b *faultBackend) WriteReader(ctx context.Context, path string, r io.Reader
 			// the REAL LocalBackend sees a transfer that dies after n bytes
 			return b.LocalBackend.WriteReader(ctx, path, &failingReader{r: r, left: n}, size)
 		}
+		if t, ok := b.f.writeT[k]; ok {
+			b.nWrite[k]++
+			if b.nWrite[k] <= t[0] {
+				b.hitWrite[k] = true
+				if t[1] < 0 {
+					return errInjWrite
+				}
+				return b.LocalBackend.WriteReader(ctx, path, &failingReader{r: r, left: t[1]}, size)
+			}
+		}
 	}
 	return b.LocalBackend.WriteReader(ctx, path, r, size)
 }
@@ -155,7 +188,8 @@ func newFB(dir string, isBackup bool, f *faults) *faultBackend {
 	if err != nil {
 		panic(err)
 	}
-	return &faultBackend{LocalBackend: lb, isBackup: isBackup, f: f, hitRead: map[string]bool{}, hitWrite: map[string]bool{}}
+	return &faultBackend{LocalBackend: lb, isBackup: isBackup, f: f, hitRead: map[string]bool{}, hitWrite: map[string]bool{},
+		nRead: map[string]int{}, nWrite: map[string]int{}}
 }
 
 // ---------------------------------------------------------------- trees
@@ -260,8 +294,28 @@ func b01(b bool) string {
 	return "0"
 }
 
+func tStr(m map[string][2]int, write bool) string {
+	if len(m) == 0 {
+		return "-"
+	}
+	ks := make([]string, 0, len(m))
+	for k := range m {
+		ks = append(ks, k)
+	}
+	sort.Strings(ks)
+	for i, k := range ks {
+		d := strconv.Itoa(m[k][1])
+		if write && m[k][1] < 0 {
+			d = "pre"
+		}
+		ks[i] = fmt.Sprintf("%s:%d:%s", k, m[k][0], d)
+	}
+	return strings.Join(ks, ",")
+}
+
 func faultStr(f *faults) string {
-	return fmt.Sprintf("mf=%s sf=%s cf=%s r=%s w=%s", b01(f.manifest), b01(f.sqlite), b01(f.config), setStr(f.read, false), setStr(f.write, true))
+	return fmt.Sprintf("mf=%s sf=%s cf=%s r=%s w=%s rt=%s wt=%s", b01(f.manifest), b01(f.sqlite), b01(f.config),
+		setStr(f.read, false), setStr(f.write, true), tStr(f.readT, false), tStr(f.writeT, true))
 }
 
 // ---------------------------------------------------------------- one case
@@ -413,6 +467,16 @@ func (r *runner) run(files []file, bf *faults, restores []restoreSpec) {
 				}
 			}
 			sort.Strings(missing)
+			// every file the backup CLAIMS to contain must hold the source bytes
+			for _, p := range sortedKeys(stored) {
+				if ob, ok := orig[p]; ok && string(ob) != string(stored[p]) {
+					c.Fail("backup-holds-wrong-bytes:streamBackupFile",
+						fmt.Sprintf("CreateBackup reported completed; the backup's copy of %s has %d bytes (FNV %d), the source has %d bytes (FNV %d)",
+							p, len(stored[p]), fnv(stored[p]), len(ob), fnv(ob)),
+						canon.String()+bop+" => "+bout+"\n")
+					break
+				}
+			}
 			if len(missing) > 0 && (num("skipped_files") == 0 || res.Manifest.SkippedFiles == 0) {
 				c.Fail("backup-incomplete-unrecorded:CreateBackup",
 					fmt.Sprintf("CreateBackup reported completed, backup lacks %d file(s) (first: %s) but manifest skipped_files=%d (in-memory %d)",
@@ -489,6 +553,17 @@ func (r *runner) run(files []file, bf *faults, restores []restoreSpec) {
 		// ---- monitor (clause 2): success reported ⇒ every file held by the backup is in the data
 		// storage, byte-for-byte, at its original path.
 		if success && !rs.f.optNoData {
+			// bytes of every restored backup file against the ORIGINAL tree (not only against the backup)
+			for _, p := range sortedKeys(stored) {
+				if ob, ok := orig[p]; ok {
+					if ab, ok2 := after[p]; ok2 && string(ab) != string(ob) {
+						c.Fail("roundtrip-mismatch:RestoreBackup",
+							fmt.Sprintf("restore reported success; %s restored with %d bytes (FNV %d), original has %d bytes (FNV %d)", p, len(ab), fnv(ab), len(ob), fnv(ob)),
+							canon.String())
+						break
+					}
+				}
+			}
 			lost := []string{}
 			for p, b := range stored {
 				if ab, ok := after[p]; !ok || string(ab) != string(b) {
@@ -525,6 +600,15 @@ func (r *runner) run(files []file, bf *faults, restores []restoreSpec) {
 		}
 	}
 	c.Case(canon.String(), bf.any() || anyRestoreFault(restores) || hasOdd(files))
+}
+
+func sortedKeys(m map[string][]byte) []string {
+	ks := make([]string, 0, len(m))
+	for k := range m {
+		ks = append(ks, k)
+	}
+	sort.Strings(ks)
+	return ks
 }
 
 func sameBytes(a, b map[string][]byte) bool {
@@ -689,6 +773,7 @@ func pickFaults(r *vh.Rand, paths []string, restore bool) *faults {
 	}
 	switch {
 	case mode < 3: // none
+		addTransient(r, f, paths, restore)
 		return f
 	case mode < 5: // exactly one file
 		addOne(vh.Pick(r, paths))
@@ -723,7 +808,31 @@ func pickFaults(r *vh.Rand, paths []string, restore bool) *faults {
 	if r.Chance(4) {
 		f.manifest = true
 	}
+	addTransient(r, f, paths, restore)
 	return f
+}
+
+// addTransient: with some probability a few files get a transient read (and, on restore, write) fault.
+func addTransient(r *vh.Rand, f *faults, paths []string, restore bool) {
+	if len(paths) == 0 || !r.Chance(30) {
+		return
+	}
+	k := 1
+	if r.Chance(30) {
+		k = r.Range(2, 3)
+	}
+	if !restore { // stay within the skip ratio most of the time
+		k = 1
+	}
+	for i := 0; i < k; i++ {
+		p := vh.Pick(r, paths)
+		n := vh.Pick(r, []int{1, 1, 1, 2})
+		if r.Chance(70) || !restore {
+			f.readT[p] = [2]int{n, vh.Pick(r, []int{0, 1, 2, 3, 64, 40000})}
+		} else {
+			f.writeT[p] = [2]int{n, vh.Pick(r, []int{-1, 0, 2, 64})}
+		}
+	}
 }
 
 // makeSQLite creates a small valid SQLite database (driver registered by internal/backup's import).
@@ -811,6 +920,17 @@ func main() {
 		{"empty", &faults{read: rd(one[0].path), write: map[string]int{}, optMeta: true, sqlite: true}},
 		{"empty", &faults{read: map[string]int{}, write: map[string]int{}, optMeta: true, optCfg: true, config: true}},
 		{"orig", &faults{read: map[string]int{}, write: map[string]int{}, optMeta: true, optNoData: true}}})
+	// a TRANSIENT partial read during backup: 1 of 10 files, first attempt delivers 2 bytes then fails
+	{
+		fs := nFiles(10)
+		bf := noFaults()
+		bf.readT[fs[3].path] = [2]int{1, 2}
+		rn.run(fs, bf, empty())
+		rf := noFaults()
+		rf.readT[fs[4].path] = [2]int{1, 3}
+		rf.writeT[fs[5].path] = [2]int{1, 2}
+		rn.run(fs, noFaults(), []restoreSpec{{"empty", rf}})
+	}
 	bsf := withMeta()
 	bsf.sqlite, bsf.config = true, true // the copies fail: non-fatal, has_metadata/has_config stay false
 	rn.run(one, bsf, []restoreSpec{{"empty", &faults{read: rd(one[0].path), write: map[string]int{}, optMeta: true, optCfg: true}}})
